@@ -604,6 +604,85 @@ def custom_block_types(R, L, mods, rng, quick, g):
         for path, kind, msg, where in C.diffs[:3]:
             R.violation(f'field-differs-{where if where[0] != "?" else "McStateExtra" + where[1:]}-{kind}', f'McStateExtra: field {path}: {msg}', W)
 
+    # ---- McBlockExtra (masterchain_block_extra#cca5), key blocks included: key_block:(## 1) shard_hashes:ShardHashes shard_fees:ShardFees
+    #      ^[ prev_blk_signatures:(HashmapE 16 CryptoSignaturePair) recover_create_msg:(Maybe ^InMsg) mint_msg:(Maybe ^InMsg) ] config:key_block?ConfigParams
+    #      ShardFees = HashmapAugE 96 ShardFeeCreated ShardFeeCreated (its root extra sits INLINE, before the reference group and the config address)
+    def cc_add(a, b):
+        other = dict(a.get('other') or {})
+        for k, v in (b.get('other') or {}).items():
+            other[k] = other.get(k, 0) + v
+        return {'grams': a['grams'] + b['grams'], 'other': other}
+
+    def enc_sfc(xw, e):
+        T.enc_currency_collection(xw, e['fees'])
+        T.enc_currency_collection(xw, e['create'])
+    zero_sfc = {'fees': {'grams': 0, 'other': {}}, 'create': {'grams': 0, 'other': {}}}
+    for rep in range(24 if quick else 1500):
+        key_block = rep % 2
+        nfees = rng.choice([0, 0, 1, 3])
+        g.small = rep % 3 != 0             # two thirds without extra currencies, one third with (dictionary references inside the inline root extra)
+        fees = {rng.getrandbits(96): {'fees': dict(g.cc(), grams=rng.getrandbits(60)), 'create': dict(g.cc(), grams=rng.getrandbits(60))} for _ in range(nfees)}
+        g.small = False
+        sigs = {rng.getrandbits(16): (rng.randbytes(32), rng.randbytes(32), rng.randbytes(32)) for _ in range(rng.choice([0, 1, 2]))}
+        recover = rc.RC(gen.rand_bits(rng, 20)) if rng.random() < 0.5 else None
+        mint = rc.RC(gen.rand_bits(rng, 33)) if rng.random() < 0.5 else None
+        cfg_addr = rng.choice([bytes([0x55]) * 32, rng.randbytes(32), bytes(32), b'\xff' * 32])
+        cfg_keys = sorted({rng.choice([0, 1, 8, 34, -1 & 0xFFFFFFFF, rng.getrandbits(31)]) for _ in range(3)})
+        w = T.W()
+        w.u(0xcca5, 16).u(key_block, 1)
+        w.u(0, 1)                                                     # shard_hashes: empty HashmapE 32
+        T.enc_hashmap_aug_e(w, fees, 96, enc_sfc, lambda v: v, lambda a, b: {'fees': cc_add(a['fees'], b['fees']), 'create': cc_add(a['create'], b['create'])}, enc_sfc, zero_sfc)
+
+        def inner(iw):
+            T.enc_hashmap_e(iw, sigs, 16, lambda vw, x: vw.bytes(x[0]).u(5, 4).bytes(x[1]).bytes(x[2]))
+            T.enc_maybe(iw, recover, lambda mw, x: mw.ref(x))
+            T.enc_maybe(iw, mint, lambda mw, x: mw.ref(x))
+        w.sub(inner)
+        if key_block:
+            w.bytes(cfg_addr).ref(T.hashmap({k: rc.RC(format(i, '08b')) for i, k in enumerate(cfg_keys)}, 32, lambda vw, x: vw.ref(x)))
+        w.bits(SENT_BITS)
+        try:
+            cell = w.cell()
+        except rc.RefError:
+            R.count('mcblockextra_does_not_fit')
+            continue
+        W = {'type': 'McBlockExtra', 'key_block': key_block, 'shard_fees_entries': nfees, 'extra_currencies': any(v['fees']['other'] or v['create']['other'] for v in fees.values()),
+             'signatures': len(sigs), 'boc': rc.encode_boc([cell])}
+        sl = bridge.to_lib(cell).begin_parse()
+        st, o = mon.call(lambda: blk.McBlockExtra.deserialize(sl))
+        R.counters['oracle_evaluations'] += 1
+        R.count('mcblockextra_cases')
+        R.cover('constructors_covered', ('McBlockExtra', f'key{key_block}-fees{min(nfees, 1)}'))
+        R.case(mon.fp('mcbe', cell.hash))
+        if st == 'exc':
+            R.exc(o)
+            R.violation(f'deserialize-raises-McBlockExtra-{type(o).__name__}', f'McBlockExtra.deserialize raised {o!r}', W)
+            continue
+        C = Cmp(R, L)
+        C.integer('$.key_block', key_block, int(getattr(o, 'key_block', -1)), False)
+        got_sigs = getattr(o, 'prev_blk_signatures', None)
+        R.check(sorted(got_sigs or {}) == sorted(sigs), 'field-differs-McBlockExtra-prev_blk_signatures', f'McBlockExtra: prev_blk_signatures keys {sorted(got_sigs or {})} != {sorted(sigs)}', W)
+        for nm, want in (('recover_create_msg', recover), ('mint_msg', mint)):
+            got = getattr(o, nm, '<missing>')
+            R.check((got is None and want is None) or (want is not None and getattr(got, 'hash', None) == want.hash), f'field-differs-McBlockExtra-{nm}',
+                    f'McBlockExtra: {nm} is {mon.srepr(got, 40)}, encoded {"absent" if want is None else want.hash.hex()[:16]}', W)
+        sf = getattr(o, 'shard_fees', '<missing>')
+        R.check((sf is None) == (not fees), 'field-differs-McBlockExtra-shard_fees', f'McBlockExtra: shard_fees is {mon.srepr(sf, 40)} for {nfees} encoded entries', W)
+        cfg = getattr(o, 'config', '<missing>')
+        if key_block:
+            got_addr = getattr(cfg, 'config_addr', None)
+            got_addr = bytes.fromhex(got_addr) if isinstance(got_addr, str) else got_addr
+            R.check(got_addr == cfg_addr, 'field-differs-McBlockExtra-config_addr', f'McBlockExtra (key block): config_addr {mon.srepr(got_addr, 40)} != encoded {cfg_addr.hex()[:20]}..', W)
+            got_cfg = getattr(cfg, 'config', None) or {}
+            R.check(sorted(k & 0xFFFFFFFF for k in got_cfg) == cfg_keys, 'field-differs-McBlockExtra-config', f'McBlockExtra (key block): config parameters {sorted(got_cfg)[:5]} != encoded {cfg_keys}', W)
+        else:
+            R.check(cfg is None, 'field-differs-McBlockExtra-config', 'McBlockExtra (not a key block): a config came back', W)
+        R.count('fields_compared', C.fields + 6)
+        for path, kind, msg, where in C.diffs[:3]:
+            R.violation(f'field-differs-McBlockExtra-{kind}', f'McBlockExtra: field {path}: {msg}', W)
+        R.check(sl.bits.to01() == SENT_BITS and sl.remaining_refs == 0, 'consumed-wrong-amount-McBlockExtra',
+                f'McBlockExtra.deserialize left {sl.remaining_bits} bits / {sl.remaining_refs} references, the sentinel is {len(SENT_BITS)} bits / 0 references', W)
+
 
 # ------------------------------------------------------------------------------------------- the bundled main-net block
 def dec_ext_blk_ref(r):
